@@ -95,6 +95,40 @@ Theorem C18_move_remove_fails : forall F s src dst i c s1 e,
 Proof. exact move_file_remove_fails. Qed.
 Print Assumptions C18_move_remove_fails.
 
+(** ** The second copy strategy: temporary file in the destination's directory + rename over the
+    destination NAME (atomic replace).  [tmp] is the temporary name; nothing is assumed about it
+    except that it is not the destination itself (an occupied name makes the exclusive create fail).
+    Same guarantees as C18_copy_faults, for every fault oracle (faults at create, copy incl. partial
+    write, the rename of the temporary file, and its removal on the failure paths — it may stay
+    behind); where they differ the replace strategy is stronger or necessarily different:
+    every file that existed, the old destination included, is untouched (never truncated), and the
+    destination ENTRY is what changes on success (a symbolic link or second hard link there is
+    replaced, not written through) — all other entries except the temporary name are unchanged. *)
+Theorem C18_copy_replace_faults : forall F s src dst tmp i c s' r,
+  wf s -> stat s src = Ok i -> inode s i = Some (File c) -> stat_fault_harmless F s dst i -> tmp <> dst ->
+  copy_replace_f F s src dst tmp = (s', r) ->
+  (r = None -> read_path s' dst = Some c /\ stat s' dst <> Ok i)
+  /\ read_path s' src = Some c
+  /\ stat s' src = Ok i /\ inode s' i = Some (File c)
+  /\ (forall j n, inode s j = Some n -> inode s' j = Some n)
+  /\ (forall e, e <> dst -> e <> tmp -> slot s' e = slot s e)
+  /\ (r <> None -> slot s' dst = slot s dst).
+Proof. exact copy_replace_f_safe. Qed.
+Print Assumptions C18_copy_replace_faults.
+
+(** MoveFile over the replace strategy: literally the statement of C18_move_faults. *)
+Theorem C18_move_replace_faults : forall F s src dst tmp i c s' r,
+  wf s -> slot s src = Link i -> inode s i = Some (File c) -> stat_fault_harmless F s dst i -> tmp <> dst ->
+  move_replace_f F s src dst tmp = (s', r) ->
+  (r = None ->
+     read_path s' dst = Some c
+     /\ (slot s' src = Empty \/ (stat s dst = Ok i /\ slot s' src = Link i /\ inode s' i = Some (File c))))
+  /\ (r <> None -> slot s' src = Link i /\ inode s' i = Some (File c))
+  /\ (forall j n, inode s j = Some n -> stat s dst <> Ok j -> inode s' j = Some n)
+  /\ (slot s' src = Empty -> read_path s' dst = Some c).
+Proof. exact move_replace_f_safe. Qed.
+Print Assumptions C18_move_replace_faults.
+
 (** The excluded fault is a real window of the present code: with only os.Stat(dest) failing and
     dest an alias of the source, CopyFile returns nil and the non-empty source reads as empty. *)
 Theorem copy_stat_fault_on_alias_refuted :
@@ -123,10 +157,13 @@ Theorem C18_scenarios_covered : forall k od c,
   /\ slot (scenario k od false c) src_path = Link 0
   /\ stat (scenario k od false c) src_path = Ok 0
   /\ inode (scenario k od false c) 0 = Some (File c)
-  /\ stat_fault_harmless (scenario_faults k) (scenario k od false c) (dst_path k) 0.
+  /\ (forall replace, stat_fault_harmless (scenario_faults replace k) (scenario k od false c) (dst_path k) 0)
+  /\ tmp_path <> dst_path k /\ slot (scenario k od false c) tmp_path = Empty
+  /\ parent (scenario k od false c) tmp_path = parent (scenario k od false c) (dst_path k).
 Proof.
   intros k od c. split; [exact (scenario_wf k od false c) |].
-  destruct (scenario_source k od c) as (H1 & H2 & H3). repeat split; auto. exact (scenario_faults_harmless k _ _ _).
+  destruct (scenario_source k od c) as (H1 & H2 & H3). destruct (scenario_tmp k od c) as (T1 & T2 & T3).
+  repeat split; auto. intros b. exact (scenario_faults_harmless b k _ _ _).
 Qed.
 Print Assumptions C18_scenarios_covered.
 
@@ -159,6 +196,13 @@ Example C18_devfull :
   /\ model_fields 1 10 1 0 1 = [false; true; true; false; true]
   /\ model_fields 1 11 1 0 1 = [false; true; true; false; true].
 Proof. vm_compute. repeat split; reflexivity. Qed.
+
+(** the two strategies differ on a symbolic link to the device that fails every write: writing through
+    fails with ENOSPC, replacing the link succeeds and the name then holds the bytes *)
+Example C18_strategies_differ :
+  model_fields_for 0 0 11 0 0 1 = [false; true; true; false; true]
+  /\ model_fields_for 1 0 11 0 0 1 = [true; true; true; true; true].
+Proof. vm_compute. split; reflexivity. Qed.
 
 (** PARTIAL.  Proved: the statements above, for every file system state, aliasing relation,
     content and fault oracle (with the one excluded fault named above), under the system-call
